@@ -182,7 +182,7 @@ def run_job(ctx, job):
         return job
     d = ctx.path("jobs", re.sub(r"[^A-Za-z0-9_.-]", "_", job.name), "x")
     d = os.path.dirname(d)
-    default_to = 150 if ctx.tier == "quick" else 900
+    default_to = 300 if ctx.tier == "quick" else 1200
     timeout = job.timeout or default_to
     gb1 = os.path.join(d, "a.gb")
     gb2 = os.path.join(d, "b.gb")
@@ -553,10 +553,16 @@ def run_property(ctx, make_jobs, meta):
         print("UNDECIDED property=%s job=%s: %s" % (prop, j.name, j.reason[:600]))
     wall = time.time() - t0
     n_known = len(set(known_hits))
+    level = meta.get("level", "proof")
+    if n_obl == 0 and n_b_obl > 0 and level == "proof":
+        level = "model_checking"      # every obligation of this run is a bounded stand-in: not reported as proof
     ev = dict(
-        property_id=prop, tier=ctx.tier, seed=ctx.seed, level=meta.get("level", "proof"),
+        property_id=prop, tier=ctx.tier, seed=ctx.seed, level=level,
         coverage=dict(
             obligations=n_obl, discharged=n_dis,
+            evaluations=len(jobs), distinct_nontrivial=n_dis + n_b_dis,
+            rule="one evaluation = one CBMC run on one harness/contract (function under contract x variant); distinct_nontrivial = number of distinct "
+                 "non-canary proof obligations discharged in those runs (unbounded + bounded, counted by the driver from CBMC's result list)",
             checker_cmd="goto-cc | goto-instrument --dfcc --enforce-contract [...] | cbmc (see samples[].cbmc); driver: ./check %s --tier %s" % (prop, ctx.tier),
             trusted_base=meta.get("trusted_base", []),
             functions_under_contract=sorted(funcs),
